@@ -1000,6 +1000,14 @@ def run(ctx):
     answers = ctx.driver.call("sugar", [[s] for s in sx])
     pinned = ctx.driver.call("sugar_pinned", [[s] for s in sx])
     preds = ctx.driver.call("preds", [[s] for s in sx])
+    # extraction cross-check: a sample of the driver's answers on comprehension cases re-evaluated inside Coq by vm_compute
+    import core
+    semi = [i for i, (tag, e) in enumerate(cs) if tag == "sem" and any(isinstance(n, (ast.ListComp, ast.GeneratorExp)) for n in ast.walk(e))]
+    core.coq_crosscheck(ctx, ID, "From FA.Base Require Import PyAst Value Traverse.\nFrom FA.Model Require Import Sugar.",
+                        core.xcheck_sample([cs[i][1] for i in semi], [answers[i] for i in semi],
+                                           lambda e: "sugar %s" % bridge.to_coq(e),
+                                           lambda a: ("Ok %s" % bridge.sx_to_coq(bridge.parse_sx(a[3:]))) if a.startswith("OK ") else None,
+                                           max_nodes=40))
     for (tag, e), ans, pa, pr in zip(cs, answers, pinned, preds):
         if any(isinstance(n, (ast.ListComp, ast.GeneratorExp)) or (isinstance(n, ast.Call) and is_class_const(n.func))
                for n in ast.walk(e)):
